@@ -1007,6 +1007,7 @@ func ruleCompileRecursionBounded(c *Ctx) {
 		return false
 	}
 	guard := map[*ssa.Function]bool{}
+	var counterField *types.Var
 	for _, fn := range fns {
 		fn := fn
 		g := p.G(fn)
@@ -1017,6 +1018,11 @@ func ruleCompileRecursionBounded(c *Ctx) {
 			}
 			if k, ok := constInt(b.Y); !ok || k != lim {
 				return
+			}
+			if u, ok := stripConv(b.X).(*ssa.UnOp); ok && u.Op == token.MUL {
+				if fa, ok := u.X.(*ssa.FieldAddr); ok {
+					counterField = fieldOf(fa)
+				}
 			}
 			// the true branch must not recurse: it raises or returns
 			for _, r := range *b.Referrers() {
@@ -1102,6 +1108,56 @@ func ruleCompileRecursionBounded(c *Ctx) {
 	ng := 0
 	for range guard {
 		ng++
+	}
+	// the count is one count per chunk: a nested function's context continues where the enclosing one
+	// stands (C08e: restarting at 0 for every function body leaves `return function() … ` × N unbounded)
+	if counterField != nil {
+		fresh, inherits := 0, 0
+		var where ssa.Instruction
+		for _, fn := range fns {
+			allInstrs(fn, func(x ssa.Instruction) {
+				st, ok := isFieldStore(x, counterField)
+				if !ok {
+					return
+				}
+				if _, isAlloc := st.Addr.(*ssa.FieldAddr).X.(*ssa.Alloc); !isAlloc {
+					return
+				}
+				fresh++
+				var dep func(v ssa.Value, d int) bool
+				dep = func(v ssa.Value, d int) bool {
+					if d > 6 {
+						return false
+					}
+					if _, ok := loadsField(v, counterField); ok {
+						return true
+					}
+					switch y := v.(type) {
+					case *ssa.Phi:
+						for _, e := range y.Edges {
+							if dep(e, d+1) {
+								return true
+							}
+						}
+					case *ssa.BinOp:
+						return dep(y.X, d+1) || dep(y.Y, d+1)
+					}
+					return false
+				}
+				if dep(st.Val, 0) {
+					inherits++
+				} else if where == nil {
+					where = x
+				}
+			})
+		}
+		pos := "-"
+		if where != nil {
+			pos = p.ipos(where)
+		}
+		c.check(fresh > 0 && inherits == fresh, R, "compile:nested-function-continues-the-count", pos, fmt.Sprintf("%d context allocation(s) initialise the depth counter from the enclosing context's", fresh), "a new function context starts its nesting count without looking at the enclosing context's: every guard still fires inside one function body, but `return function() ` repeated N times recurses through compileFunctionExpr without bound — the Go stack overflows (fatal) instead of 'chunk has too many syntax levels'")
+	} else {
+		c.und(R, "compile:nested-function-continues-the-count", "-", "the depth counter field was not identified")
 	}
 	c.Sites += len(fns)
 	c.check(ng > 0 && len(cycle) == 0, R, "compile:recursion-depth-bounded", "-", fmt.Sprintf("every recursive cycle among the %d functions of compile.go passes through one of %d depth-counting functions", len(fns), ng), fmt.Sprintf("the functions %v of compile.go call each other recursively without passing through a function that counts the nesting against maxExprDepth: a deeply nested input recurses until the Go stack overflows (fatal, not recoverable) instead of producing a compile error", cycle))
@@ -1805,6 +1861,30 @@ func ruleResumeConvention(c *Ctx) {
 					set = true
 				}
 			})
+			// …and only when the resume goes ahead: a refused attempt (running, dead or normal thread) must
+			// leave the convention of the resume that is still pending on that thread alone
+			var early ssa.Instruction
+			allInstrs(f, func(in ssa.Instruction) {
+				st, ok := isFieldStore(in, fld)
+				if !ok || st.Addr.(*ssa.FieldAddr).X != th || !g.Live(in) {
+					return
+				}
+				b, k := after(in)
+				g.walk(b, k, func(x ssa.Instruction) bool { return x == ssa.Instruction(cl) }, func(x ssa.Instruction) bool {
+					if _, isRet := x.(*ssa.Return); isRet && early == nil {
+						early = in
+					}
+					if p.isNoReturnCall(x) && early == nil {
+						early = in
+					}
+					return false
+				})
+			})
+			epos := p.ipos(cl)
+			if early != nil {
+				epos = p.ipos(early)
+			}
+			c.check(early == nil, R, fmt.Sprintf("%s:convention-written-only-when-the-resume-goes-ahead#%d", fname(f), i+1), epos, "every path from the write of the flag runs the thread", fname(f)+" writes the thread's result-convention flag on a path that can still refuse the resume (return or raise before the thread runs): a refused coroutine.resume(co) on a running or normal thread made by coroutine.wrap flips the convention of the resume that is pending on it — its next yield reaches the wrapper's caller with a spurious leading true")
 			c.Sites++
 			c.check(set, R, fmt.Sprintf("%s:sets-result-convention-for-this-resume#%d", fname(f), i+1), p.ipos(cl), "the thread's convention flag is written before the thread runs", fname(f)+" runs a thread without saying how this resume expects its results: the flag left by whoever created or last resumed the thread decides — a thread made by coroutine.wrap that is resumed with coroutine.resume(co) returns its values without the leading true, and LState.Resume misreads the first value as the status")
 		}
@@ -2185,5 +2265,964 @@ func ruleStdStreams(c *Ctx) {
 			}
 		})
 		c.check(marks, R, "OpenIo:marks-standard-streams", p.pos(oi.Pos()), "the handles created for stdin/stdout/stderr are marked", "OpenIo does not mark the handles it creates for the standard streams: close treats them like ordinary files")
+	}
+}
+
+// ruleSurplusArgs: a Lua library function ignores the arguments it has no use for ("for every argument
+// combination": string.find(s, p, 1, true, extra) is still a plain search). For every host function that
+// addresses its arguments by constant positions only, what it can reach when called with exactly as many
+// arguments as the highest position it looks at must be what it can reach with one, or three, more:
+// evaluated abstractly with GetTop() known (reachGiven). Functions that address arguments relatively
+// (negative or computed positions, GetTop() in arithmetic or as a loop bound) are variadic by nature and
+// not judged. One listed exception: table.insert, whose arity is part of its definition.
+func ruleSurplusArgs(c *Ctx) {
+	const R = "R10-surplus"
+	p := c.P
+	p.computeNoReturn()
+	exceptions := map[string]string{
+		"tableInsert": "the manual defines the two- and the three-argument form only; the reference raises 'wrong number of arguments to insert' for any other count",
+	}
+	getTop := p.Fn("lua", "(*LState).GetTop")
+	if getTop == nil {
+		c.und(R, "GetTop", "-", "LState.GetTop not found")
+		return
+	}
+	judged := 0
+	for _, fn := range p.srcFuncs {
+		if fn.Pkg == nil || fn.Pkg.Pkg.Path() != luaPath || fn.Signature.Recv() != nil || fn.Parent() != nil {
+			continue
+		}
+		sig := fn.Signature
+		if sig.Params().Len() != 1 || sig.Results().Len() != 1 || typeName(sig.Params().At(0).Type()) != "LState" {
+			continue
+		}
+		if b, ok := sig.Results().At(0).Type().Underlying().(*types.Basic); !ok || b.Kind() != types.Int {
+			continue
+		}
+		L := fn.Params[0]
+		maxK, variadic, usesTop := surplusInfo(p, fn, getTop, 0)
+		if !usesTop || variadic {
+			continue
+		}
+		judged++
+		c.Sites++
+		reachFor := func(t int64) map[ssa.Instruction]bool {
+			return reachGiven(fn, func(v ssa.Value) (aval, bool) {
+				if cl, ok := v.(*ssa.Call); ok && cl.Call.StaticCallee() == getTop && cl.Call.Args[0] == ssa.Value(L) {
+					return aInt(t), true
+				}
+				return aval{}, false
+			}, p.isNoReturnCall)
+		}
+		base := reachFor(maxK)
+		var diff ssa.Instruction
+		var at int64
+		for _, t := range []int64{maxK + 1, maxK + 3} {
+			r := reachFor(t)
+			allInstrs(fn, func(in ssa.Instruction) {
+				if _, isCall := in.(*ssa.Call); !isCall {
+					return
+				}
+				if base[in] != r[in] && diff == nil {
+					diff, at = in, t
+				}
+			})
+		}
+		key := fname(fn) + ":ignores-surplus-arguments"
+		if why, ok := exceptions[fname(fn)]; ok {
+			c.okT(R, key, p.pos(fn.Pos()), "listed exception: "+why)
+			continue
+		}
+		pos := p.pos(fn.Pos())
+		if diff != nil {
+			pos = p.ipos(diff)
+		}
+		c.check(diff == nil, R, key, pos, fmt.Sprintf("looks at positions up to %d; reaches the same calls with %d, %d and %d arguments", maxK, maxK, maxK+1, maxK+3), fmt.Sprintf("%s looks at argument positions up to %d but behaves differently when called with %d arguments than with %d (an arity test by equality): a surplus argument changes the result — string.find(s, p, 1, true, nil) stops being a plain search", fname(fn), maxK, at, maxK))
+	}
+	c.floor(R, 8)
+	if st := c.Stats[R]; st != nil && judged < 8 {
+		c.und(R, "floor", "-", fmt.Sprintf("only %d host functions could be judged", judged))
+	}
+}
+
+// surplusInfo: the highest constant argument position fn (or a helper it hands its state to) looks at,
+// whether it addresses arguments relatively (variadic), and whether it consults GetTop() itself.
+func surplusInfo(p *Prog, fn *ssa.Function, getTop *ssa.Function, depth int) (int64, bool, bool) {
+	if len(fn.Params) == 0 || depth > 3 {
+		return 0, depth > 3, false
+	}
+	L := fn.Params[0]
+	maxK, variadic, usesTop := int64(0), false, false
+	allInstrs(fn, func(in ssa.Instruction) {
+		cl, ok := in.(*ssa.Call)
+		if !ok {
+			return
+		}
+		sc := cl.Call.StaticCallee()
+		if sc != nil && sc.Pkg != nil && sc.Pkg.Pkg.Path() == luaPath && sc.Signature.Recv() == nil && len(cl.Call.Args) >= 1 && cl.Call.Args[0] == ssa.Value(L) && sc.Blocks != nil && sc != fn {
+			k, v, _ := surplusInfo(p, sc, getTop, depth+1)
+			if k > maxK {
+				maxK = k
+			}
+			if v {
+				variadic = true
+			}
+			// a position handed to the helper as a constant (fileWriteAux(L, file, 2))
+			for _, a := range cl.Call.Args[1:] {
+				if bt, ok := a.Type().Underlying().(*types.Basic); ok && bt.Kind() == types.Int {
+					if k, isK := constInt(a); isK && k > maxK && k < 100 {
+						maxK = k
+					}
+				}
+			}
+			return
+		}
+		if sc == nil || recvNamed(sc) != "LState" || len(cl.Call.Args) < 1 || cl.Call.Args[0] != ssa.Value(L) {
+			return
+		}
+		if sc == getTop {
+			usesTop = true
+			for _, r := range *cl.Referrers() {
+				switch x := r.(type) {
+				case *ssa.BinOp:
+					_, k1 := constInt(x.X)
+					_, k2 := constInt(x.Y)
+					cmp := x.Op == token.EQL || x.Op == token.NEQ || x.Op == token.LSS || x.Op == token.LEQ || x.Op == token.GTR || x.Op == token.GEQ
+					if !cmp || !(k1 || k2) {
+						variadic = true
+					}
+				case *ssa.DebugRef:
+				default:
+					variadic = true
+				}
+			}
+			return
+		}
+		n := sc.Name()
+		argAccess := n == "Get" || strings.HasPrefix(n, "Check") || strings.HasPrefix(n, "Opt") || (strings.HasPrefix(n, "To") && n != "ToStringMeta") || n == "ArgError" || n == "TypeError" || n == "Replace" || n == "Remove" || n == "Insert"
+		if !argAccess || len(cl.Call.Args) < 2 {
+			return
+		}
+		idx := cl.Call.Args[1]
+		if n == "Insert" && len(cl.Call.Args) >= 3 {
+			idx = cl.Call.Args[2]
+		}
+		if bt, ok := idx.Type().Underlying().(*types.Basic); !ok || bt.Info()&types.IsInteger == 0 {
+			return
+		}
+		k, isK := constInt(idx)
+		if !isK || k <= 0 {
+			variadic = true
+			return
+		}
+		if k > maxK && k < 1000 {
+			maxK = k
+		}
+	})
+	return maxK, variadic, usesTop
+}
+
+// ruleRangeEndInsideSet: C14e. In a character set `x-y` is a range only if y is still inside the set:
+// a '-' directly before the closing bracket is a literal ("[a-]", "[%w_-]"). The byte that becomes the
+// upper end of a range is therefore read at an index strictly below the index of the closing bracket —
+// the value the parser finally leaves the scanner on.
+func ruleRangeEndInsideSet(c *Ctx) {
+	const R = "R14-index"
+	p := c.P
+	fn := c.need(R, "pm", "parseClassSet")
+	if fn == nil {
+		return
+	}
+	g := p.G(fn)
+	// the closing bracket: what is stored into the scanner's position at the end
+	var ec ssa.Value
+	allInstrs(fn, func(in ssa.Instruction) {
+		if st, ok := in.(*ssa.Store); ok {
+			if fa, ok := st.Addr.(*ssa.FieldAddr); ok {
+				if pt, ok := fa.X.Type().Underlying().(*types.Pointer); ok {
+					if stt, ok := pt.Elem().Underlying().(*types.Struct); ok && stt.Field(fa.Field).Name() == "Pos" {
+						ec = st.Val
+					}
+				}
+			}
+		}
+	})
+	n, okc := 0, true
+	var where ssa.Instruction
+	allInstrs(fn, func(in ssa.Instruction) {
+		st, ok := in.(*ssa.Store)
+		if !ok {
+			return
+		}
+		fa, ok := st.Addr.(*ssa.FieldAddr)
+		if !ok || typeName(fa.X.Type()) != "pm.rangeClass" {
+			return
+		}
+		if stt, ok := fa.X.Type().Underlying().(*types.Pointer).Elem().Underlying().(*types.Struct); !ok || stt.Field(fa.Field).Name() != "End" {
+			return
+		}
+		// End = &charClass{int(src[idx])}: find idx
+		al, ok := stripMI(st.Val).(*ssa.Alloc)
+		if !ok {
+			return
+		}
+		var idx ssa.Value
+		var at ssa.Instruction
+		for _, r := range *al.Referrers() {
+			fa2, ok := r.(*ssa.FieldAddr)
+			if !ok {
+				continue
+			}
+			for _, r2 := range *fa2.Referrers() {
+				if s2, ok := r2.(*ssa.Store); ok {
+					if u, ok := stripConv(s2.Val).(*ssa.UnOp); ok && u.Op == token.MUL {
+						if ia, ok := u.X.(*ssa.IndexAddr); ok {
+							idx, at = ia.Index, ia
+						}
+					}
+				}
+			}
+		}
+		if idx == nil || ec == nil {
+			return
+		}
+		n++
+		li, le := lin(idx), lin(ec)
+		inside := false
+		for _, cd := range g.expandAnd(g.CondsAtInstr(at)) {
+			b, ok := cd.V.(*ssa.BinOp)
+			if !ok {
+				continue
+			}
+			op := b.Op
+			if !cd.Sense {
+				op = negate(op)
+			}
+			x, y := b.X, b.Y
+			if op == token.GTR || op == token.GEQ {
+				x, y = y, x
+				if op == token.GTR {
+					op = token.LSS
+				} else {
+					op = token.LEQ
+				}
+			}
+			if op != token.LSS && op != token.LEQ {
+				continue
+			}
+			lx, ly := lin(x), lin(y)
+			// x = idx + c1, y = ec + c2  ⇒  idx < ec + (c2 - c1) [+1 for <=]
+			if sameTerms(lx, li) != 1 || sameTerms(ly, le) != 1 {
+				continue
+			}
+			slack := (ly.K - le.K) - (lx.K - li.K)
+			if op == token.LEQ {
+				slack++
+			}
+			if slack <= 0 {
+				inside = true
+			}
+		}
+		if !inside {
+			okc = false
+			if where == nil {
+				where = at
+			}
+		}
+	})
+	pos := p.pos(fn.Pos())
+	if where != nil {
+		pos = p.ipos(where)
+	}
+	c.Sites++
+	c.check(n > 0 && okc, R, "parseClassSet:range-end-inside-the-set", pos, fmt.Sprintf("%d range(s): the upper end is read strictly before the closing bracket", n), "the pattern parser takes the byte at (or beyond) the closing bracket as the upper end of a range: '[a-]', '[%w_-]' and '[+-]' no longer contain a literal '-' (the set becomes the range from the last character to ']')")
+}
+
+// ruleLogicalStore: F96. In an and/or value expression the destination register is written by exactly
+// the jumps that leave the expression: a TESTSET (test and store into the destination) is emitted only
+// where the jump's target is the expression's end label; a jump to the next operand uses TEST. Choosing
+// by the operator kind loses the false operand of `b = t.q and t.q.r` (b keeps its old value) and stores
+// early in `x = (g() or 2) and x`.
+func ruleLogicalStore(c *Ctx) {
+	const R = "R01-peephole"
+	p := c.P
+	fn := c.need(R, "lua", "compileLogicalOpExprAux")
+	if fn == nil {
+		return
+	}
+	g := p.G(fn)
+	testset := p.op("OP_TESTSET")
+	endF := p.Field("lua", "lblabels", "e")
+	n, okc := 0, true
+	var where ssa.Instruction
+	allInstrs(fn, func(in ssa.Instruction) {
+		cl, ok := in.(*ssa.Call)
+		if !ok {
+			return
+		}
+		sc := cl.Call.StaticCallee()
+		if sc == nil || recvNamed(sc) != "codeStore" || sc.Name() != "AddABC" {
+			return
+		}
+		// the opcode operand may be a phi (TEST when source and destination coincide)
+		isTestset := false
+		var look func(v ssa.Value, d int)
+		look = func(v ssa.Value, d int) {
+			if k, ok := constInt(v); ok && k == testset {
+				isTestset = true
+			}
+			if ph, ok := v.(*ssa.Phi); ok && d < 3 {
+				for _, e := range ph.Edges {
+					look(e, d+1)
+				}
+			}
+		}
+		look(cl.Call.Args[1], 0)
+		if !isTestset {
+			return
+		}
+		n++
+		// jumplabel == lb.e, or the isLastAnd/isLastOr flags which are defined by such a comparison
+		var dep func(v ssa.Value, d int) bool
+		dep = func(v ssa.Value, d int) bool {
+			if d > 5 {
+				return false
+			}
+			if b, ok := v.(*ssa.BinOp); ok && b.Op == token.EQL {
+				if _, ok := loadsField(b.X, endF); ok {
+					return true
+				}
+				if _, ok := loadsField(b.Y, endF); ok {
+					return true
+				}
+			}
+			return false
+		}
+		leaves := g.holdsOnAllPaths(cl.Block(), func(cd Cond) bool { return cd.Sense && dep(cd.V, 0) }, 0)
+		if !leaves {
+			okc = false
+			if where == nil {
+				where = cl
+			}
+		}
+	})
+	pos := p.pos(fn.Pos())
+	if where != nil {
+		pos = p.ipos(where)
+	}
+	c.Sites++
+	c.check(n >= 2 && okc, R, "compileLogicalOpExprAux:destination-written-only-by-jumps-that-leave", pos, fmt.Sprintf("%d TESTSET emissions, each under a comparison of the jump target with the end label", n), "compileLogicalOpExprAux emits a TESTSET (store into the destination) without having established that the jump leaves the expression — and, conversely, tests without storing where it does: `local b = 5; b = t.q and t.q.r` keeps 5 when t.q is nil, `x = (g() or 2) and x` reads the x it has just overwritten")
+}
+
+// ruleForContinuesUnlessNil: C01e. A generic for ends when the iterator's first value is nil — false is a
+// value like any other (`for k in next, {[false] = 1}`). In the TFORLOOP handler the block that jumps back
+// (adds the jump operand to the frame's Pc) is entered under a comparison of the first result with LNil,
+// not under a truth test.
+func ruleForContinuesUnlessNil(c *Ctx) {
+	const R = "R01-forprep"
+	p := c.P
+	t := p.vmTable()
+	oi := t.ByName["OP_TFORLOOP"]
+	if oi == nil || oi.Handler == nil {
+		c.und(R, "OP_TFORLOOP:continues-unless-nil", "-", "handler not found")
+		return
+	}
+	fn := oi.Handler
+	g := p.G(fn)
+	pcF := p.Field("lua", "callFrame", "Pc")
+	var back *ssa.Store
+	allInstrs(fn, func(in ssa.Instruction) {
+		st, ok := isFieldStore(in, pcF)
+		if !ok {
+			return
+		}
+		// Pc += operand - bias: the stored value depends on a loaded code word (an IndexAddr load)
+		var dep func(v ssa.Value, d int) bool
+		dep = func(v ssa.Value, d int) bool {
+			if d > 8 {
+				return false
+			}
+			if u, ok := v.(*ssa.UnOp); ok && u.Op == token.MUL {
+				if _, ok := u.X.(*ssa.IndexAddr); ok {
+					return true
+				}
+			}
+			if x, ok := v.(ssa.Instruction); ok {
+				for _, op := range x.Operands(nil) {
+					if *op != nil && dep(*op, d+1) {
+						return true
+					}
+				}
+			}
+			return false
+		}
+		if dep(st.Val, 0) {
+			back = st
+		}
+	})
+	if back == nil {
+		c.und(R, "OP_TFORLOOP:continues-unless-nil", p.pos(fn.Pos()), "the back jump of TFORLOOP was not found")
+		return
+	}
+	nilTest, truthTest := false, false
+	for _, cd := range g.expandAnd(g.CondsAtInstr(back)) {
+		if b, ok := cd.V.(*ssa.BinOp); ok && (b.Op == token.NEQ || b.Op == token.EQL) && strings.Contains(vkey(b), "g:LNil") {
+			if (b.Op == token.NEQ) == cd.Sense {
+				nilTest = true
+			}
+		}
+		if cl, ok := cd.V.(*ssa.Call); ok {
+			if sc := cl.Call.StaticCallee(); sc != nil && (sc.Name() == "LVAsBool" || sc.Name() == "LVIsFalse") {
+				truthTest = true
+			}
+		}
+		if u, ok := cd.V.(*ssa.UnOp); ok && u.Op == token.NOT {
+			if cl, ok := u.X.(*ssa.Call); ok {
+				if sc := cl.Call.StaticCallee(); sc != nil && (sc.Name() == "LVAsBool" || sc.Name() == "LVIsFalse") {
+					truthTest = true
+				}
+			}
+		}
+	}
+	c.Sites++
+	c.check(nilTest && !truthTest, R, "OP_TFORLOOP:continues-unless-nil", p.ipos(back), "the loop continues exactly when the first result differs from LNil", "the generic for decides by the truth value of the iterator's first result (or does not compare it with nil): a false key or control value ends the loop — `for k, v in next, {[false] = 'x'}` visits nothing")
+}
+
+// ruleFrameCoversParameters: C02e. Frame set-up stores the compat `arg` table in R(NumParameters) and
+// then cuts the frame at NumUsedRegisters; a tail call moves NumUsedRegisters slots starting at the
+// function slot. Both need NumUsedRegisters >= NumParameters + 1 whatever the body uses. Decided by
+// evaluating patchCode's prologue and epilogue for concrete parameter counts on the path that skips the
+// scan loop (an empty body): the stored count must be at least np + 1.
+func ruleFrameCoversParameters(c *Ctx) {
+	const R = "R07-regcount"
+	p := c.P
+	fn := c.need(R, "lua", "patchCode")
+	if fn == nil {
+		return
+	}
+	npF := p.Field("lua", "FunctionProto", "NumParameters")
+	nuF := p.Field("lua", "FunctionProto", "NumUsedRegisters")
+	var st *ssa.Store
+	allInstrs(fn, func(in ssa.Instruction) {
+		if s, ok := isFieldStore(in, nuF); ok {
+			st = s
+		}
+	})
+	if st == nil || npF == nil {
+		c.und(R, "patchCode:frame-covers-parameters-and-arg-slot", p.pos(fn.Pos()), "the store of NumUsedRegisters was not found")
+		return
+	}
+	p.computeNoReturn()
+	okc, evaluated := true, 0
+	worst := ""
+	for _, np := range []int64{0, 1, 2, 3, 7, 100, 200} {
+		min, have := int64(0), false
+		reachGivenW(fn, func(v ssa.Value) (aval, bool) {
+			if _, ok := loadsField(v, npF); ok {
+				return aInt(np), true
+			}
+			return aval{}, false
+		}, func(v ssa.Value, a aval) {
+			if v == st.Val && a.isInt {
+				if !have || a.i < min {
+					min, have = a.i, true
+				}
+			}
+		}, p.isNoReturnCall)
+		if !have {
+			continue
+		}
+		evaluated++
+		if min < np+1 {
+			okc = false
+			if worst == "" {
+				worst = fmt.Sprintf("%d parameters give NumUsedRegisters %d", np, min)
+			}
+		}
+	}
+	c.Sites++
+	c.check(evaluated >= 5 && okc, R, "patchCode:frame-covers-parameters-and-arg-slot", p.ipos(st), fmt.Sprintf("for %d parameter counts an empty body yields at least np+1 registers", evaluated), "patchCode can give a function fewer registers than its parameters plus the slot behind them ("+worst+"): frame set-up puts the compat arg table into R(np) and then cuts it off, and a tail call leaves the last parameter behind — `local function second(a, b) return b end` tail-called returns nil")
+}
+
+// ruleDigitsOverflowGuard: C16e. parseDigits accumulates v*base + d in 64 bits and must notice when that
+// no longer fits (the exact value is then computed with big integers). Evaluated at the boundary: for
+// every base 2..36 and digit d < base, with the accumulator at the smallest value for which v*base + d
+// exceeds 2^64-1, the function must take the arm that clears its `exact` flag. A guard that only looks at
+// v*base misses the carry of the digit (tonumber("11112220022122120101211020120210210211221", 3) = 0).
+func ruleDigitsOverflowGuard(c *Ctx) {
+	const R = "R16-onereader"
+	p := c.P
+	fn := c.need(R, "lua", "parseDigits")
+	if fn == nil {
+		return
+	}
+	// roles: the base parameter (int), the digit (the value compared with the base), the accumulator (a
+	// loop-carried unsigned phi), the flag (a bool phi with a constant-false edge)
+	var base *ssa.Parameter
+	for _, pm := range fn.Params {
+		if b, ok := pm.Type().Underlying().(*types.Basic); ok && b.Kind() == types.Int {
+			base = pm
+		}
+	}
+	var digit, acc ssa.Value
+	var flagJoin *ssa.Phi
+	var flagHead *ssa.Phi
+	allInstrs(fn, func(in ssa.Instruction) {
+		switch x := in.(type) {
+		case *ssa.BinOp:
+			if (x.Op == token.GEQ || x.Op == token.LSS) && base != nil && x.Y == ssa.Value(base) {
+				digit = x.X
+			}
+		case *ssa.Phi:
+			if isUnsignedType(x.Type()) && acc == nil {
+				for _, e := range x.Edges {
+					if k, ok := constInt(e); ok && k == 0 {
+						acc = x
+					}
+				}
+			}
+			if b, ok := x.Type().Underlying().(*types.Basic); ok && b.Kind() == types.Bool && flagHead == nil {
+				// the loop-carried flag: true on entry, otherwise a phi that has a constant-false edge
+				hasTrue := false
+				var join *ssa.Phi
+				for _, e := range x.Edges {
+					if v, ok := constBool(e); ok && v {
+						hasTrue = true
+					}
+					if ph, ok := e.(*ssa.Phi); ok {
+						for _, e2 := range ph.Edges {
+							if v, ok := constBool(e2); ok && !v {
+								join = ph
+							}
+						}
+					}
+				}
+				if hasTrue && join != nil {
+					flagHead, flagJoin = x, join
+				}
+			}
+		}
+	})
+	key := "parseDigits:notices-every-64-bit-overflow"
+	if base == nil || digit == nil || acc == nil || flagJoin == nil {
+		c.und(R, key, p.pos(fn.Pos()), "base parameter, digit, accumulator or exactness flag not identified")
+		return
+	}
+	const M = ^uint64(0)
+	evaluated, missed := 0, ""
+	for b := uint64(2); b <= 36; b++ {
+		for d := uint64(0); d < b; d++ {
+			v0 := (M-d)/b + 1
+			sawFalse, sawTrue := false, false
+			reachGivenW(fn, func(v ssa.Value) (aval, bool) {
+				switch {
+				case v == ssa.Value(base):
+					return aInt(int64(b)), true
+				case v == digit:
+					return aInt(int64(d)), true
+				case v == acc:
+					return aInt(int64(v0)), true
+				case flagHead != nil && v == ssa.Value(flagHead):
+					return aBool(true), true
+				}
+				return aval{}, false
+			}, func(v ssa.Value, a aval) {
+				if v == ssa.Value(flagJoin) && !a.isInt {
+					if a.b {
+						sawTrue = true
+					} else {
+						sawFalse = true
+					}
+				}
+			})
+			if sawFalse || sawTrue {
+				evaluated++
+			}
+			if sawTrue && missed == "" {
+				missed = fmt.Sprintf("base %d, accumulator %d, digit %d", b, v0, d)
+			}
+		}
+	}
+	c.Sites++
+	c.check(evaluated >= 600 && missed == "", R, key, p.pos(fn.Pos()), fmt.Sprintf("%d boundary cases (base, digit) evaluated: the overflowing step always clears the exactness flag", evaluated), "parseDigits keeps its 64-bit result although v*base + d no longer fits ("+missed+"): the accumulator wraps and tonumber(s, base) returns a small wrong number for numerals at 2^64 in a base that is not a power of two")
+}
+
+// ruleConcatSeparator: C18e. table.concat puts the separator between every two consecutive elements of
+// the range: whether one is due depends on the position in the range, never on how many bytes have been
+// assembled so far — an element may be the empty string ({"", "a"} with "," is ",a").
+func ruleConcatSeparator(c *Ctx) {
+	const R = "R18-lib"
+	p := c.P
+	fn := c.need(R, "lua", "tableConcat")
+	if fn == nil {
+		return
+	}
+	g := p.G(fn)
+	optStr := p.Fn("lua", "(*LState).OptString")
+	var sepAppends []*ssa.Call
+	allInstrs(fn, func(in ssa.Instruction) {
+		cl, ok := in.(*ssa.Call)
+		if !ok {
+			return
+		}
+		if bi, ok := cl.Call.Value.(*ssa.Builtin); !ok || bi.Name() != "append" || len(cl.Call.Args) < 2 {
+			return
+		}
+		for _, oc := range callsTo(fn, optStr) {
+			if dependsOnValue(cl.Call.Args[1], oc, 0) {
+				sepAppends = append(sepAppends, cl)
+			}
+		}
+	})
+	if len(sepAppends) == 0 {
+		c.und(R, "tableConcat:separator-by-position", p.pos(fn.Pos()), "the append of the separator was not found")
+		return
+	}
+	var bad ssa.Instruction
+	for _, sa := range sepAppends {
+		for _, cd := range g.expandAnd(g.CondsAtInstr(sa)) {
+			var lenOfText func(v ssa.Value, d int) bool
+			lenOfText = func(v ssa.Value, d int) bool {
+				if d > 6 {
+					return false
+				}
+				if cl, ok := v.(*ssa.Call); ok {
+					if bi, ok := cl.Call.Value.(*ssa.Builtin); ok && bi.Name() == "len" {
+						switch t := cl.Call.Args[0].Type().Underlying().(type) {
+						case *types.Slice:
+							if b, ok := t.Elem().Underlying().(*types.Basic); ok && b.Kind() == types.Uint8 {
+								return true
+							}
+						case *types.Basic:
+							if t.Info()&types.IsString != 0 {
+								return true
+							}
+						}
+						return false
+					}
+					if pk, n, ok := stdCall(cl); ok && (pk == "bytes" || pk == "strings") && strings.HasSuffix(n, ".Len") {
+						return true
+					}
+				}
+				if in, ok := v.(ssa.Instruction); ok {
+					if _, isCall := v.(*ssa.Call); isCall {
+						return false
+					}
+					for _, op := range in.Operands(nil) {
+						if *op != nil && lenOfText(*op, d+1) {
+							return true
+						}
+					}
+				}
+				return false
+			}
+			if lenOfText(cd.V, 0) && bad == nil {
+				bad = sa
+			}
+		}
+	}
+	pos := p.ipos(sepAppends[0])
+	if bad != nil {
+		pos = p.ipos(bad)
+	}
+	c.Sites++
+	c.check(bad == nil, R, "tableConcat:separator-by-position", pos, "the separator is placed by position in the range", "table.concat decides whether a separator is due by the length of the text assembled so far: a leading empty string loses its separator — table.concat({\"\", \"a\", \"b\"}, \",\") gives \"a,b\" instead of \",a,b\"")
+}
+
+// ruleSearchersReadOnly: C20e. A searcher (an entry of package.loaders) answers where a module can be
+// loaded from; it changes nothing. A preload entry stays registered after it was used: require caches
+// the result, but a later search (after package.loaded[name] = nil, or when the loader returned false)
+// must find the entry again and still prefer it to the path search.
+func ruleSearchersReadOnly(c *Ctx) {
+	const R = "R20-order"
+	p := c.P
+	writers := map[string]bool{"SetField": true, "SetTable": true, "RawSet": true, "RawSetInt": true, "RawSetString": true, "RawSetH": true, "SetGlobal": true, "Insert": true, "Append": true, "Remove": true}
+	n := 0
+	for _, name := range []string{"loLoaderPreload", "loLoaderLua"} {
+		fn := c.need(R, "lua", name)
+		if fn == nil {
+			continue
+		}
+		n++
+		var bad ssa.Instruction
+		what := ""
+		allInstrs(fn, func(in ssa.Instruction) {
+			sc := staticCallee(in)
+			if sc == nil {
+				return
+			}
+			rn := recvNamed(sc)
+			if (rn == "LState" || rn == "LTable") && writers[sc.Name()] && bad == nil {
+				bad, what = in, rn+"."+sc.Name()
+			}
+		})
+		pos := p.pos(fn.Pos())
+		if bad != nil {
+			pos = p.ipos(bad)
+		}
+		c.Sites++
+		c.check(bad == nil, R, name+":searcher-modifies-no-table", pos, "the searcher only reads", name+" writes a table ("+what+"): a searcher that consumes the preload entry it finds makes the next search for the same name fall through to the path search (or fail) although nobody removed the registration")
+	}
+	if n == 0 {
+		c.und(R, "searchers", "-", "no searcher found")
+	}
+}
+
+// ruleCaptureResolvesLocalFirst: C03e. A closure captures "the very variable that was in scope where it
+// was created": a name that is a visible local of the enclosing function is captured as that local
+// (capture word MOVE), whether or not the enclosing function also has an upvalue of the same name
+// (`local depth = depth + 1; return function() return depth end`). The emission of the local capture
+// word is therefore decided by the local lookup alone.
+func ruleCaptureResolvesLocalFirst(c *Ctx) {
+	const R = "R03-capture"
+	p := c.P
+	fn := c.need(R, "lua", "compileExpr")
+	if fn == nil {
+		return
+	}
+	g := p.G(fn)
+	findLocal := p.Fn("lua", "(*funcContext).FindLocalVarAndBlock")
+	refF := p.Field("lua", "codeBlock", "RefUpvalue")
+	opMove := p.op("OP_MOVE")
+	n := 0
+	var bad ssa.Instruction
+	allInstrs(fn, func(in ssa.Instruction) {
+		cl, ok := in.(*ssa.Call)
+		if !ok {
+			return
+		}
+		sc := cl.Call.StaticCallee()
+		if sc == nil || recvNamed(sc) != "codeStore" || sc.Name() != "AddABC" {
+			return
+		}
+		if k, ok := constInt(cl.Call.Args[1]); !ok || k != opMove {
+			return
+		}
+		// the capture word: its B operand is the result of the local lookup
+		isCapture := false
+		for _, fl := range callsTo(fn, findLocal) {
+			if dependsOnValue(cl.Call.Args[3], fl, 0) {
+				isCapture = true
+			}
+		}
+		if !isCapture {
+			return
+		}
+		n++
+		for _, cd := range g.expandAnd(g.CondsAtInstr(cl)) {
+			// a test that involves anything looked up in an upvalue table
+			var viaUp func(v ssa.Value, d int) bool
+			viaUp = func(v ssa.Value, d int) bool {
+				if d > 6 {
+					return false
+				}
+				if c2, ok := v.(*ssa.Call); ok {
+					if s2 := c2.Call.StaticCallee(); s2 != nil && recvNamed(s2) == "varNamePool" {
+						return true
+					}
+					return false
+				}
+				if x, ok := v.(ssa.Instruction); ok {
+					for _, op := range x.Operands(nil) {
+						if *op != nil && viaUp(*op, d+1) {
+							return true
+						}
+					}
+				}
+				return false
+			}
+			if viaUp(cd.V, 0) && bad == nil {
+				bad = cl
+			}
+		}
+	})
+	_ = refF
+	pos := p.pos(fn.Pos())
+	if bad != nil {
+		pos = p.ipos(bad)
+	}
+	c.Sites++
+	c.check(n > 0 && bad == nil, R, "compileExpr:capture-resolves-local-first", pos, fmt.Sprintf("%d local capture emission(s), decided by the local lookup alone", n), "whether a captured name is taken from the enclosing function's local depends on a lookup in its upvalue table: when the enclosing function has both an upvalue and a visible local of that name, the closure is bound to the outer variable instead of the one in scope — `local depth = depth + 1; return function() return depth end` reads the outer depth")
+}
+
+// ruleProtectedPreparation: F99. "An error … never leaves DoString, PCall or a protected CallByParam as
+// a Go panic": whatever these entry points do before they reach PCall must not be able to raise — pushing
+// the function and the arguments can (registry overflow), so it is done by a helper that recovers.
+func ruleProtectedPreparation(c *Ctx) {
+	const R = "R05-convert"
+	p := c.P
+	pcall := c.need(R, "lua", "(*LState).PCall")
+	if pcall == nil {
+		return
+	}
+	recovers := func(f *ssa.Function) bool {
+		if f == nil || f.Blocks == nil {
+			return false
+		}
+		found := false
+		allInstrs(f, func(in ssa.Instruction) {
+			d, ok := in.(*ssa.Defer)
+			if !ok {
+				return
+			}
+			var cl *ssa.Function
+			switch v := d.Call.Value.(type) {
+			case *ssa.MakeClosure:
+				cl, _ = v.Fn.(*ssa.Function)
+			case *ssa.Function:
+				cl = v
+			}
+			if cl == nil {
+				return
+			}
+			allInstrs(cl, func(x ssa.Instruction) {
+				if c2, ok := x.(*ssa.Call); ok {
+					if bi, ok := c2.Call.Value.(*ssa.Builtin); ok && bi.Name() == "recover" {
+						found = true
+					}
+				}
+			})
+		})
+		return found
+	}
+	n := 0
+	for _, name := range []string{"(*LState).DoString", "(*LState).DoFile", "(*LState).GPCall", "(*LState).CallByParam"} {
+		fn := c.need(R, "lua", name)
+		if fn == nil {
+			continue
+		}
+		g := p.G(fn)
+		var bad ssa.Instruction
+		who := ""
+		allInstrs(fn, func(in ssa.Instruction) {
+			if _, isCall := in.(*ssa.Call); !isCall || !g.Live(in) || isCallTo(in, pcall) {
+				return
+			}
+			may, via := p.siteMayRaise(in)
+			if !may {
+				return
+			}
+			if sc := staticCallee(in); sc != nil && recovers(sc) {
+				return
+			}
+			// can a PCall still follow?
+			b, i := after(in)
+			if g.walk(b, i, nil, func(x ssa.Instruction) bool { return isCallTo(x, pcall) }) && bad == nil {
+				bad, who = in, via
+			}
+		})
+		n++
+		pos := p.pos(fn.Pos())
+		if bad != nil {
+			pos = p.ipos(bad)
+		}
+		c.Sites++
+		c.check(bad == nil, R, strings.TrimPrefix(name, "(*LState).")+":nothing-raises-before-the-protection", pos, "no call that may raise lies before PCall outside a recovering helper", name+" calls "+who+", which can raise a Lua error (registry overflow on a push), before PCall has installed its recovery: with a full registry the error leaves the protected entry point as a Go panic")
+	}
+	if n < 4 {
+		c.und(R, "protected-entry-points", "-", "fewer than four protected entry points found")
+	}
+}
+
+// ruleReadBounded: F97. (a) readBufioSize allocates in pieces whose size has a constant upper bound — the
+// requested count comes from the script (f:read(2^40)) and must never be the size of one allocation.
+// (b) the line iterators read through file.reader only after having found it non-nil (a handle opened
+// for writing has none). F98: (c) the scanner's readNext hands out a byte only when the read reported no
+// error at all — any error, not just io.EOF, ends the input.
+func ruleReadBounded(c *Ctx) {
+	p := c.P
+	if c.Prop == "C08" {
+		const R = "R08-eof"
+		fn := c.need(R, "parse", "(*Scanner).readNext")
+		if fn == nil {
+			return
+		}
+		g := p.G(fn)
+		okc, n := true, 0
+		allInstrs(fn, func(in ssa.Instruction) {
+			ret, ok := in.(*ssa.Return)
+			if !ok || len(ret.Results) != 1 {
+				return
+			}
+			if _, isK := constInt(ret.Results[0]); isK {
+				return // the EOF constant
+			}
+			n++
+			errNil := false
+			for _, cd := range g.expandAnd(g.CondsAtInstr(in)) {
+				b, ok := cd.V.(*ssa.BinOp)
+				if !ok {
+					continue
+				}
+				isNil := func(v ssa.Value) bool { k, ok := v.(*ssa.Const); return ok && k.IsNil() }
+				if (isNil(b.X) || isNil(b.Y)) && ((b.Op == token.EQL && cd.Sense) || (b.Op == token.NEQ && !cd.Sense)) {
+					errNil = true
+				}
+			}
+			if !errNil {
+				okc = false
+			}
+		})
+		c.Sites++
+		c.check(n > 0 && okc, R, "readNext:any-read-error-ends-the-input", p.pos(fn.Pos()), "a byte is handed out only when the read returned a nil error", "the scanner hands out a byte although the reader reported an error (only io.EOF is treated as the end): a reader that keeps failing looks like an endless run of NUL bytes and Load never returns from inside a string literal or long comment")
+		return
+	}
+	const R = "R19-buffers"
+	if fn := c.need(R, "lua", "readBufioSize"); fn != nil {
+		g := p.G(fn)
+		n, okc := 0, true
+		var where ssa.Instruction
+		allInstrs(fn, func(in ssa.Instruction) {
+			ms, ok := in.(*ssa.MakeSlice)
+			if !ok || !g.Live(in) {
+				return
+			}
+			if _, isK := constInt(ms.Len); isK {
+				return
+			}
+			n++
+			up, _, hasUp, _ := bounds(g, in, ms.Len)
+			if !hasUp || up > 1<<24 {
+				okc = false
+				if where == nil {
+					where = in
+				}
+			}
+		})
+		pos := p.pos(fn.Pos())
+		if where != nil {
+			pos = p.ipos(where)
+		}
+		c.Sites++
+		c.check(okc, R, "readBufioSize:allocation-bounded", pos, fmt.Sprintf("%d computed allocation size(s), each with a constant upper bound", n), "readBufioSize allocates a buffer whose size is the count the script asked for: f:read(2^40) on any file kills the process (fatal error: out of memory) instead of returning the bytes that are there")
+	}
+	readerF := p.Field("lua", "lFile", "reader")
+	rl := p.Fn("lua", "readBufioLine")
+	for _, name := range []string{"fileLinesIter", "ioLinesIter"} {
+		fn := c.need(R, "lua", name)
+		if fn == nil || rl == nil || readerF == nil {
+			continue
+		}
+		g := p.G(fn)
+		okc := len(callsTo(fn, rl)) > 0
+		for _, cl := range callsTo(fn, rl) {
+			guarded := false
+			for _, cd := range g.expandAnd(g.CondsAtInstr(cl)) {
+				b, ok := cd.V.(*ssa.BinOp)
+				if !ok {
+					continue
+				}
+				_, l1 := loadsField(b.X, readerF)
+				_, l2 := loadsField(b.Y, readerF)
+				if (l1 || l2) && ((b.Op == token.NEQ && cd.Sense) || (b.Op == token.EQL && !cd.Sense)) {
+					guarded = true
+				}
+			}
+			if !guarded {
+				okc = false
+			}
+		}
+		c.Sites++
+		c.check(okc, R, name+":reads-only-through-an-existing-reader", p.pos(fn.Pos()), "the line is read after the handle's reader was found non-nil", name+" reads a line through file.reader without looking whether the handle has one: iterating a handle that was opened for writing (io.input(io.open(p, 'w')); io.lines()) dereferences nil")
 	}
 }
